@@ -32,10 +32,15 @@ def check(run):
     embed_total = {}
     try:
         nprog = 40 if quick else 300
-        for pi in range(nprog):
+        from jugverif import genprog
+        fixed = genprog.single_link_programs()
+        for pi in range(nprog + len(fixed)):
             ntasks = rng.choice([4, 8, 10, 14]) if quick else rng.choice([4, 8, 12, 20, 30, 40])
-            from jugverif import genprog
-            P = E.prepare(rng, scratch, ntasks, want=genprog.RARE[pi % len(genprog.RARE)])
+            if pi < len(fixed):
+                # every embedding kind as the only link between a producer and a consumer (deterministic part of the input space)
+                P = E.analyse_text(fixed[pi].text, scratch, fixed[pi].embed)
+            else:
+                P = E.prepare(rng, scratch, ntasks, want=genprog.RARE[pi % len(genprog.RARE)])
             for k, v in P['embed'].items():
                 embed_total[k] = embed_total.get(k, 0) + v
             # sequential jug vs plain python
@@ -43,7 +48,7 @@ def check(run):
                 from jugverif import lib
                 if lib.canon(P['top'][k]) != lib.canon(P['plain'][k]):
                     X.fail_case(run, 'sequential-differs-from-python', 'single worker: value(%s) = %s, plain Python gives %s' % (k, lib.canon(P['top'][k])[:200], lib.canon(P['plain'][k])[:200]), P, {'backend': 'dict', 'nworkers': 1, 'sched_seed': 0})
-            for backend in X.BACKENDS:
+            for backend in (X.BACKENDS if pi >= len(fixed) else [X.BACKENDS[pi % len(X.BACKENDS)]]):
                 for rep in range(1 if quick else 2):
                     nw = rng.choice([1, 2, 2, 3, 4])
                     flags = {w: [False, False, rng.random() < 0.5] for w in range(nw)}
